@@ -253,6 +253,27 @@ def check_case(ctx, case):
                     ctx.violation("smc_wrong", {"at": bad, "got": [float(got[tuple(b)]) for b in bad], "want": [float(E[tuple(b)]) for b in bad]})
                 if got.sum() != n:
                     ctx.violation("smc_total_not_event_count", {"sum": float(got.sum()), "n": n})
+    # ---- the user's way out of a refusal, on ONE catalog object: gridding refused -> magnitude histogram (locations do not matter)
+    # -> filter the catalog to the region and the magnitude range -> gridding again: exactly the in-domain events, each in its bin
+    if (outside or below) and case["region"]["kind"] == "cart":
+        c = cat()
+        for refused in (lambda: c.spatial_magnitude_counts(**kw), lambda: c.spatial_counts(), lambda: c.spatial_event_probability()):
+            call(refused)
+        om = call(lambda: c.magnitude_counts(**kw))
+        if not om.ok:
+            ctx.unexpected(om, "magnitude_counts:after_refused_gridding")
+        elif numpy.asarray(om.value).shape != want_mag.shape or not numpy.array_equal(numpy.asarray(om.value), want_mag):
+            ctx.violation("magnitude_counts_wrong:after_refused_gridding", {"got": numpy.asarray(om.value).tolist()[:8], "want": want_mag.tolist()[:8]})
+        of = call(lambda: (c.filter_spatial(region, in_place=True), c.filter("magnitude >= %r" % float(edges[0]), in_place=True)))
+        if not of.ok:
+            ctx.unexpected(of, "filter_to_region_and_magnitude_range:after_refused_gridding")
+        else:
+            o2 = call(lambda: c.spatial_magnitude_counts(**kw))
+            ctx.count("gridding_refused_then_catalog_filtered_and_gridded_again")
+            if not o2.ok:
+                ctx.unexpected(o2, "spatial_magnitude_counts:after_refusal_and_filtering")
+            elif numpy.asarray(o2.value).shape != E.shape or not numpy.array_equal(numpy.asarray(o2.value), E):
+                ctx.violation("smc_wrong:after_refusal_and_filtering", {"got_sum": float(numpy.asarray(o2.value).sum()), "want_sum": float(E.sum())})
     # ---- magnitude histogram: below-minimum events uncounted (never wrapped into another bin)
     for name, f in (("magnitude_counts", lambda: cat().magnitude_counts(**kw)),):
         o = call(f)
